@@ -10,7 +10,13 @@ VARIABLES start,     \* the sequence start in force
 vars == <<start, counter, served, last>>
 
 Init(s0) == start = s0 /\ counter = 0 /\ served = 0 /\ last = -1
-NextSequence == /\ last' = start.value + counter
+\* SequenceStart is an abstract class: a user-defined start may be unable to give its value yet (kind "pending"); a request made
+\* then raises, returns no number and therefore is no request - "the n-th number RETURNED" does not count it
+Unreadable(s) == s.kind = "pending"
+FailedRequest == Unreadable(start) /\ UNCHANGED <<start, counter, served, last>>
+Resolve(v) == Unreadable(start) /\ start' = [kind |-> "resolved", value |-> v] /\ UNCHANGED <<counter, served, last>>
+NextSequence == /\ ~Unreadable(start)
+                /\ last' = start.value + counter
                 /\ counter' = (counter + 1) % 10
                 /\ served' = served + 1
                 /\ UNCHANGED start
